@@ -261,7 +261,9 @@ func enumProbeValues(entries []XEntry, bitmask bool) []uint64 {
 		var flags []uint64
 		for _, e := range entries {
 			add(e.Value)
-			flags = append(flags, e.Value)
+			if e.Value != 0 && e.Value&(e.Value-1) == 0 {
+				flags = append(flags, e.Value)
+			}
 		}
 		var all uint64
 		for i, a := range flags {
@@ -465,24 +467,28 @@ func compare(d XDialect, p probeDialect) error {
 					}
 				}
 			} else if val != 0 {
+				// every rendered name must be a defined entry that the value contains completely, and the
+				// names together must cover the value (entries naming several bits make more than one
+				// rendering legitimate; a name whose bits are only partly set is never legitimate)
 				parts := strings.Split(pv.Text, " | ")
-				var want []string
-				for fv, ns := range byVal {
-					if val&fv != 0 {
-						found := ""
-						for _, p := range parts {
-							if containsStr(ns, p) {
-								found = p
+				var covered uint64
+				for _, p := range parts {
+					found := false
+					for ev, ns := range byVal {
+						if containsStr(ns, p) {
+							found = true
+							if ev == 0 || val&ev != ev {
+								return fmt.Errorf("enum %s: value %#x renders as %q, but %s (=%#x) is not contained in it", n, val, pv.Text, p, ev)
 							}
+							covered |= ev
 						}
-						if found == "" {
-							return fmt.Errorf("enum %s: combination %#x renders as %q, flag %v missing", n, val, pv.Text, ns)
-						}
-						want = append(want, found)
+					}
+					if !found {
+						return fmt.Errorf("enum %s: value %#x renders as %q: %q is not an entry name", n, val, pv.Text, p)
 					}
 				}
-				if len(parts) != len(want) {
-					return fmt.Errorf("enum %s: combination %#x renders as %q, expected exactly the %d contained flags", n, val, pv.Text, len(want))
+				if covered != val {
+					return fmt.Errorf("enum %s: value %#x renders as %q, which names only %#x", n, val, pv.Text, covered)
 				}
 			}
 		}
@@ -530,6 +536,11 @@ func classify(d XDialect) []string {
 		for _, e := range f.Enums {
 			if e.Bitmask {
 				set["bitmask-enum"] = true
+				for _, en := range e.Entries {
+					if en.Value&(en.Value-1) != 0 {
+						set["bitmask-enum-with-multi-bit-entry"] = true
+					}
+				}
 			} else if len(e.Entries) >= 2 {
 				all := true
 				for _, en := range e.Entries {
@@ -591,7 +602,7 @@ func snakeInvertible(name string) bool {
 
 func TestC18Generator(t *testing.T) {
 	rec := evid.New(t, "C18", "XML documents printed from a random dialect model (messages with ids up to 2^24-1, scalar/array/char[n]/scalar char/uint8_t_mavlink_version/enum-typed fields, extension marker at every position, non-snake-case field names, ordinary and bitmask enums with decimal/0x/0b/a**b values, include graphs with diamonds and enums extended by the includer, <version> present/absent) are converted by the real conversion.Convert, compiled with go build, and a probe linked against the generated packages dumps ids, CRC_EXTRA, sizes, per-field one-hot encodings, constants and enum text behaviour; all compared with expectations derived from the model; generating twice must give identical trees; definitions with an unknown field type, a malformed enum value or message name must be refused; non-trivial = document with an extension block, an include, a mavname-requiring field or a non-decimal enum value; distinct by hash of the XML")
-	rec.Require("extension", "include", "mavname-field", "non-decimal-enum-value", "leading-zero-decimal", "negative-refused", "bitmask-enum", "enum-field", "scalar-char", "enum-extended-by-includer", "cli-binary-compared", "ordinary-enum-with-power-of-two-values")
+	rec.Require("extension", "include", "mavname-field", "non-decimal-enum-value", "leading-zero-decimal", "negative-refused", "bitmask-enum", "enum-field", "scalar-char", "enum-extended-by-includer", "cli-binary-compared", "ordinary-enum-with-power-of-two-values", "bitmask-enum-with-multi-bit-entry")
 	root := scratch(t)
 	defer os.RemoveAll(root)
 	// the command-line tool built from the same tree: its output must equal the in-process conversion
